@@ -4,6 +4,8 @@ import (
 	"fmt"
 	"go/types"
 	"os"
+	"os/exec"
+	"strings"
 
 	"golang.org/x/tools/go/ssa"
 )
@@ -137,6 +139,9 @@ func (x *Exec) ExecPaths(fr *frame, st *State, k func(st *State, val Value)) {
 					if pc.IsFalse() {
 						continue
 					}
+					if x.Opt.Prune && !c.IsTrue() && !x.feasible(pc) {
+						continue // the solver refutes this side under the path condition: dead path
+					}
 					sub := st
 					if !c.IsTrue() {
 						sub = st.snapshot()
@@ -251,3 +256,27 @@ func (x *Exec) tryInstr(fr *frame, st *State, ins ssa.Instruction) (req *inlineR
 var _ = types.Typ
 
 var traceForks = os.Getenv("B6VC_TRACE") != ""
+
+// feasible asks the solver whether a path condition is satisfiable (unit option "prune").
+// Only a definite "unsat" prunes; anything else keeps the path. Sound: a pruned path has an
+// unsatisfiable condition, every obligation on it would hold vacuously.
+func (x *Exec) feasible(pc *Term) bool {
+	x.pruneQueries++
+	q := x.C.StripQuant(pc)
+	x.C.SkipQuantAxioms = true
+	qf, uf, arr, ints := termFeatures([]*Term{q}, x.C)
+	script := "(set-option :produce-models false)\n" + x.C.Script(pickLogic(qf, uf, arr, ints), []*Term{q}, nil)
+	x.C.SkipQuantAxioms = false
+	if os.Getenv("B6VC_PRUNE_DUMP") != "" {
+		os.WriteFile(fmt.Sprintf("/var/tmp/prune-%d.smt2", x.pruneQueries), []byte(script), 0o644)
+	}
+	cmd := exec.Command("z3-new", "-T:5", "-in")
+	cmd.Stdin = strings.NewReader(script)
+	out, _ := cmd.Output()
+	first := strings.TrimSpace(strings.SplitN(strings.TrimSpace(string(out)), "\n", 2)[0])
+	if first == "unsat" {
+		x.pruned++
+		return false
+	}
+	return true
+}
